@@ -201,8 +201,19 @@ func init() {
 		sink := NewSink(a.out, "C01", "", a.seed)
 		sink.meta.Rule = "free-running goroutines (oracle only): writers mutate, snapshots are created and closed in random order, 3 readers scan random open snapshots with refresh rates {0,1,3,50}; each run 150..400 ms; non-trivial = >=10 completed concurrent scans"
 		top := rand.New(rand.NewSource(a.seed))
+		var fixed *stressInput
+		if a.replay != "" {
+			fixed = &stressInput{}
+			if err := loadReplayCase(a.replay, fixed); err != nil {
+				return err
+			}
+			a.n = 1
+		}
 		for i := 0; i < a.n; i++ {
 			in := &stressInput{Seed: top.Int63(), MM: i%2 == 1, Cmp: (i / 2) % 2, Millis: 150 + top.Intn(250), Readers: 3, Writers: 1 + top.Intn(3)}
+			if fixed != nil {
+				in = fixed
+			}
 			sink.Begin(in)
 			runStress(in, sink)
 		}
